@@ -71,6 +71,19 @@ def same(a, b):
         return False
 
 
+def plain(v):
+    """numpy scalar -> the python number it stands for (container values compared regardless of that distinction)"""
+    try:
+        import numpy as np
+        if isinstance(v, np.generic):
+            return v.item()
+    except Exception:
+        pass
+    if isinstance(v, tuple):
+        return tuple(plain(x) for x in v)
+    return v
+
+
 def canon(v):
     """JSON-able canonical form of a value, keeping the type visible."""
     if isinstance(v, bool):
